@@ -57,13 +57,19 @@ type c09Templ struct {
 }
 
 type c09Server struct {
-	Abs    bool      `json:"abs"`
-	Scheme string    `json:"scheme"`
-	Host   []c09Part `json:"host"`
-	Port   []c09Part `json:"port"`
-	Base   []string  `json:"base"`
-	Slash  bool      `json:"slash"`
-	Bv     []c09BVar `json:"bv"` // base-path variables: segment I (1-based) of Base is the variable V, Base[I-1] its default
+	Abs    bool       `json:"abs"`
+	Scheme string     `json:"scheme"`
+	Host   []c09Part  `json:"host"`
+	Port   []c09Part  `json:"port"`
+	Base   []string   `json:"base"`
+	Slash  bool       `json:"slash"`
+	Sch    *c09SchVar `json:"sch"` // the scheme is the server variable {V} with the enum Enum and the default Scheme
+	Bv     []c09BVar  `json:"bv"`  // base-path variables: segment I (1-based) of Base is the variable V, Base[I-1] its default
+}
+
+type c09SchVar struct {
+	V    string   `json:"v"`
+	Enum []string `json:"enum"`
 }
 
 type c09BVar struct {
@@ -125,7 +131,12 @@ func c09ServerJSON(s c09Server) map[string]any {
 		}
 	}
 	if s.Abs {
-		b.WriteString(s.Scheme)
+		if s.Sch != nil {
+			b.WriteString("{" + s.Sch.V + "}")
+			vars[s.Sch.V] = map[string]any{"default": s.Scheme, "enum": s.Sch.Enum}
+		} else {
+			b.WriteString(s.Scheme)
+		}
 		b.WriteString("://")
 		for i, p := range s.Host {
 			if i > 0 {
